@@ -353,7 +353,7 @@ def _conds(prefix=""):
 
 def conditions(tier):
     from vlib.props import c03
-    sb = [c for c in c03.conditions(tier) if c.name == "sequence_bytes_all_symbolic"]
+    sb = [c for c in c03.conditions(tier) if c.name.startswith("sequence_bytes_")]
     return _conds() + sb
 
 
